@@ -30,7 +30,8 @@ def build_cases(seed, salt, n, per_pair_configs=3, translucent_every=7, classes=
                 "bk": bk, "bg": SP.jsonable(bsp)}
         if translucent_every and i % translucent_every == translucent_every - 1:
             # translucent text: foreground fg with alpha over this background
-            kind = SP.TRANSLUCENT_KINDS[rnd.randrange(len(SP.TRANSLUCENT_KINDS))]
+            allk = SP.TRANSLUCENT_KINDS + SP.TRANSLUCENT_KINDS_X
+            kind = allk[rnd.randrange(len(allk))]
             a = ALPHAS[rnd.randrange(len(ALPHAS))] if rnd.random() < 0.5 else ("%.*f" % (rnd.randrange(1, 5), rnd.random()))
             fg = t
             if rnd.random() < 0.5:
@@ -81,13 +82,13 @@ def same_string_cases(seed, salt, n_bgs=6, cfgs=None):
     cases = []
     for fg in POOL_FG:
         for a in ("0.5", "0.6", "0.85"):
-            kind = SP.TRANSLUCENT_KINDS[rnd.randrange(2)]
+            kind = ["rgba", "hsla", "rgbslash", "rgb4", "informal4", "rgbslashpct"][rnd.randrange(6)]
             sp = SP.spell_translucent(fg, a, kind)
             if sp is None:
                 continue
             for _ in range(n_bgs):
                 b = G.uniform(rnd) if rnd.random() < 0.7 else rnd.choice([(0, 0, 0), (255, 255, 255), (26, 58, 107)])
-                bk, bsp = rnd.choice(SP.available(b, ["hex6", "tuple", "rgb"]))
+                bk, bsp = rnd.choice(SP.available(b, ["hex6", "tuple", "rgb", "frac_tuple", "hsl_tuple", "str_tuple"]))
                 cases.append({"cls": "same-string", "t": list(fg), "b": list(b), "tk": kind, "text": SP.jsonable(sp), "bk": bk, "bg": SP.jsonable(bsp),
                               "alpha": a, "fg": list(fg), "cfgs": [list(c) for c in (cfgs or rnd.sample(CONFIGS, 2))]})
     return cases
@@ -112,6 +113,29 @@ def lattice_cases(seed, salt, kind, cfgs_per_pair=1):
             cases.append({"cls": "lattice-" + kind, "t": list(t), "b": list(b), "tk": tk, "text": SP.jsonable(SP.spell(t, tk)), "bk": "tuple", "bg": list(b),
                           "cfgs": [list(c) for c in cfgs]})
     return cases
+
+
+def translucent_seen_as(rnd, t, b, kinds=None):
+    """A translucent spelling whose exact source-over blend over b is unambiguously the 8-bit colour t (every channel's exact
+    value within 0.2 of t's): -> (spelled, kind, fg, alpha_text) or None. The text 'as seen' is then t itself."""
+    from fractions import Fraction
+    kinds = kinds or (SP.TRANSLUCENT_KINDS + SP.TRANSLUCENT_KINDS_X)
+    for a in rnd.sample(["0.9", "0.8", "0.75", "0.6", "0.5", "0.95", "0.4"], 7):
+        af = Fraction(a)
+        fg = []
+        for tc, bc in zip(t, b):
+            f = round((Fraction(tc) - (1 - af) * bc) / af)
+            if not 0 <= f <= 255:
+                break
+            fg.append(int(f))
+        else:
+            ex = csscolor.blend(fg, af, b)
+            if all(abs(e - tc) <= Fraction(1, 5) for e, tc in zip(ex, t)):
+                for kind in rnd.sample(kinds, len(kinds)):
+                    sp = SP.spell_translucent(tuple(fg), a, kind)
+                    if sp is not None:
+                        return sp, kind, tuple(fg), a
+    return None
 
 
 def chunk(cases, nshards):
